@@ -1329,3 +1329,79 @@ pub fn family_external(rng: &mut Rng, n: usize) -> Vec<E2e> {
     }
     v
 }
+
+/// (9) convolutions that omit the optional `kernel_shape` (and some of strides / dilations / pads):
+/// 1-D and 2-D, weights as a run-time input or as a constant.  Both loaders must then size the
+/// defaults from the weights (ONNX loader: at run time; converter: from a constant weight's rank,
+/// else empty lists = run-time defaults).
+pub fn family_conv_no_kernel_shape(rng: &mut Rng, rounds: usize, tags: &mut Vec<String>) -> Vec<E2e> {
+    let mut v = vec![];
+    for _ in 0..rounds {
+        for op in ["Conv", "ConvTranspose", "ConvInteger"] {
+            for nd in [1usize, 2] {
+                for w_const in [0u64, 100] {
+                    let (c_in, c_out, k) = (3usize, 2usize, 1 + rng.usize_below(2));
+                    let mut xs = vec![2, c_in];
+                    let mut ws = if op == "ConvTranspose" { vec![c_in, c_out] } else { vec![c_out, c_in] };
+                    for _ in 0..nd {
+                        xs.push(4 + rng.usize_below(3));
+                        ws.push(k);
+                    }
+                    let n = |s: &[usize]| s.iter().product::<usize>();
+                    let (x, w): (Value, Value) = if op == "ConvInteger" {
+                        (
+                            Tensor::<u8>::from_data(&xs, (0..n(&xs)).map(|_| rng.below(6) as u8).collect::<Vec<_>>()).into(),
+                            Tensor::<u8>::from_data(&ws, (0..n(&ws)).map(|_| rng.below(4) as u8).collect::<Vec<_>>()).into(),
+                        )
+                    } else {
+                        (
+                            fvec(&(0..n(&xs)).map(|_| rng.range_i64(-8, 8) as f32 / 4.0).collect::<Vec<_>>(), &xs),
+                            fvec(&(0..n(&ws)).map(|_| rng.range_i64(-4, 4) as f32 / 2.0).collect::<Vec<_>>(), &ws),
+                        )
+                    };
+                    let mut attrs = vec![];
+                    match rng.below(4) {
+                        0 => attrs.push(("strides".to_string(), Attr::Ints(vec![1 + rng.below(2) as i64; nd]))),
+                        1 => attrs.push(("pads".to_string(), Attr::Ints(vec![rng.below(2) as i64; 2 * nd]))),
+                        2 => attrs.push(("dilations".to_string(), Attr::Ints(vec![1; nd]))),
+                        _ => {}
+                    }
+                    let spec = OpSpec {
+                        label: format!("convnoks/{op}{nd}d"),
+                        op_type: op.into(),
+                        domain: String::new(),
+                        attrs,
+                        inputs: vec![Some(x), Some(w)],
+                        n_out: 1,
+                        skip_outs: vec![],
+                    };
+                    // only the weights are (possibly) constant
+                    let mut e = single_op_model(rng, &OpSpec { inputs: vec![None, spec.inputs[1].clone()], ..clone_spec(&spec) }, w_const, tags);
+                    // re-insert x as graph input 0
+                    let xname = "i0".to_string();
+                    e.graph.inputs.insert(0, ValueInfo::new(&xname, onnx_dtype_of(spec.inputs[0].as_ref().unwrap()), None));
+                    for nd_ in e.graph.nodes.iter_mut() {
+                        if nd_.name == "op" {
+                            nd_.inputs[0] = xname.clone();
+                        }
+                    }
+                    e.feeds.insert(0, (xname, spec.inputs[0].clone().unwrap()));
+                    v.push(e);
+                }
+            }
+        }
+    }
+    v
+}
+
+fn clone_spec(s: &OpSpec) -> OpSpec {
+    OpSpec {
+        label: s.label.clone(),
+        op_type: s.op_type.clone(),
+        domain: s.domain.clone(),
+        attrs: s.attrs.clone(),
+        inputs: s.inputs.clone(),
+        n_out: s.n_out,
+        skip_outs: s.skip_outs.clone(),
+    }
+}
